@@ -78,6 +78,20 @@ CHECKS = {
 		note='Completion order is owned only for the ordered/instant executors; with real pools the OS schedules (sampled with skewed file sizes).',
 		design='DESIGN.md §4 C13',
 	),
+	'C03': dict(
+		category='exploration',
+		technique='Hypothesis-generated forests x genome assignments x binary32 distance vectors (thresholds exactly at / one ulp off occurring distances) vs a dict model of the classification rules; metamorphic monotonicity',
+		text='classify() in default mode, GenomeMatch and reportable_taxon are compared with a dict model (closest at minimum distance, first lineage taxon with threshold >= d, primary == closest iff predicted, next = nearest threshold-bearing taxon below the prediction / topmost if none, first reportable ancestor) over generated forests with threshold-less, non-monotone and unreportable taxa, genomes on internal taxa and distances exactly equal to thresholds; increasing distance may only keep or coarsen a prediction. End-to-end worlds (query() on a materialised database) are covered by the world-level cases.',
+		note='Comparison d <= threshold is modelled exactly in binary64 (NumPy 1.26 semantics). One genuine defect found and repaired (next_taxon with a threshold-less genome taxon).',
+		design='DESIGN.md §4 C03',
+	),
+	'C10': dict(
+		category='exploration',
+		technique='Hypothesis-generated forests/matches with ALL permutations of the reference order (n<=6) and of the matched-taxon list vs a set-level consensus model',
+		text='For every generated case all reference orders (n <= 6; 200 drawn orders above) are classified in strict mode and consensus_taxon is run on all orders of the matched-taxon list; prediction, success/error flags, others-set, conflict warning (exactly the taxa strictly below the prediction) and primary match are compared with a set-level model, so order independence is checked by construction.',
+		note='Model: chain -> most specific; otherwise LCA of the minimal elements; no common ancestor -> failed. One genuine defect found and repaired (order-dependent consensus).',
+		design='DESIGN.md §4 C10',
+	),
 }
 
 NOT_APPLICABLE = {}
